@@ -188,3 +188,21 @@ func (r relationEntities) ToRelation(world *World, id ID, out []relationID) []re
 	}
 	return out
 }
+
+// checkRelationsDistinct panics if a relation component is named more than once.
+// The check that all relation targets are specified counts the entries:
+// a duplicate would hide a missing target, and the table would keep a shadowed target
+// that is never detached when it dies.
+func checkRelationsDistinct(relations []relationID) {
+	if len(relations) < 2 {
+		return
+	}
+	var seen bitMask
+	for i := range relations {
+		id := relations[i].component.id
+		if seen.Get(id) {
+			panic("relation component specified more than once")
+		}
+		seen.Set(id)
+	}
+}
